@@ -6,7 +6,7 @@
    model without it and carry it only to say where model and machine arithmetic coincide.
    ldx/ldy = end - start per axis, sgn x = 1 if 0 <= x else -1, y_major l = |dx| <= |dy|. *)
 From EG Require Import Base.Prelude Model.Geometry Model.Style Model.Line Model.Thickline
-                       Proofs.Line Proofs.Thickline Proofs.ThicklineCheck Proofs.ThicklineGrid Proofs.ThicklineNoDup Proofs.ThicklineRot.
+                       Proofs.Line Proofs.Thickline Proofs.ThicklineCheck Proofs.ThicklineGrid Proofs.ThicklineNoDup Proofs.ThicklineRot Proofs.ThicklineEnds.
 
 Theorem C17_line_first : forall l, line_ok l -> hd_error (line_points l) = Some (l_start l).
 Proof. intros l _. apply line_first. Qed.
@@ -142,6 +142,19 @@ Definition K17_wide_stroke (w : Z) : bool := 34 <=? w.
 Theorem C17_thick_distance_refuted : exists l w ps p,
   K17_wide_stroke w = true /\ thick_points l w = Some ps /\ In p ps /\ ~ dist_ok l w p.
 Proof. exact thick_distance_refuted. Qed.
+
+(* at most one pixel beyond the two ends -- ALL lines, ALL widths; in fact at most half a major step:
+   -dmaj <= 2 * dot  and  2 * (dot - len^2) <= dmaj, dot = (p - start).(end - start), i.e. the projection of every pixel
+   onto the line lies within dmaj / (2 len) <= 1/2 pixel of the segment.  ends_ok l p (Proofs/ThicklineCheck.v) is the
+   property's form: (0 <= dot \/ dot^2 <= len^2) /\ (dot <= len^2 \/ (dot - len^2)^2 <= len^2). *)
+Theorem C17_thick_within_ends : forall l w ps p,
+  thick_points l w = Some ps -> In p ps ->
+  - ldmaj l <= 2 * dot_to l p /\ 2 * (dot_to l p - (ldx l * ldx l + ldy l * ldy l)) <= ldmaj l.
+Proof. exact thick_points_ends. Qed.
+
+Theorem C17_thick_within_one_pixel_of_ends : forall l w ps p,
+  thick_points l w = Some ps -> In p ps -> ends_ok l p.
+Proof. exact thick_points_ends_ok. Qed.
 
 (* rotation by 90 degrees, rot (x, y) = (-y, x): for every line that is neither axis-parallel nor diagonal the stroke of
    the rotated line is the rotated stroke, same order (reflections and reversal do not commute with stroking) *)
